@@ -7,6 +7,10 @@ Classes (decided from the construction record, not from the proxy's code):
 Oracle: must-reject -> the client reads one 407 response (h11) then EOF, zero connect attempts, zero bytes at any
 origin, and a recording plugin placed after the auth plugin saw no request hook.  must-accept -> served, and no
 Proxy-Authorization field in ANY request any origin receives (first or later on the connection).
+TLS-interception tier (harness L of C11: live executor thread with --basic-auth and the CA flags, TLS origin thread): an
+authenticated CONNECT, the client's handshake against the generated certificate, then 1..3 requests INSIDE the tunnel each
+with its own drawn Proxy-Authorization lines: none of them may reach the origin in what it decrypts; an unauthenticated
+CONNECT gets a 407 and the origin sees no connection.
 """
 import re
 import base64
@@ -26,10 +30,12 @@ RULE = ('Hypothesis draws the configured credentials (printable, ":" in the pass
         '(GET/POST/PUT/CONNECT..., absolute or authority target), 0..3 Proxy-Authorization lines built from {right token, '
         'truncated, extended, case-flipped, url-safe alphabet, padding variants, inner whitespace, other credentials, other '
         'scheme, trailing parameters} with any name/scheme casing and spacing, a segmentation, 0..2 follow-up keep-alive '
-        'requests (with or without credentials), and whether a recording user plugin is configured. '
+        'requests (with or without credentials), and whether a recording user plugin is configured; plus live TLS-intercepted '
+        'connections (CONNECT credentials x 1..3 inner requests with drawn Proxy-Authorization lines). '
         'Non-trivial: a near-miss token (edit distance <= 2 or re-encoding of the right credentials) or an accepted '
         'connection with >= 2 requests; distinct by case hash.')
-ASSUMPTIONS = ['h11 as the independent parser', 'AF_UNIX pairs stand in for TCP']
+ASSUMPTIONS = ['h11 as the independent parser', 'AF_UNIX pairs stand in for TCP',
+               'TLS tier: OpenSSL / the ssl module are correct; a 15 s deadline hit is inconclusive']
 
 CALLS: List[Tuple[str, bytes]] = []
 _FLAGS: Dict[Any, Any] = {}
@@ -194,6 +200,16 @@ def evaluate(c: Dict[str, Any]) -> Tuple[List[Any], Dict[str, Any]]:
 
 
 def replay(case: Dict[str, Any]) -> List[Dict[str, Any]]:
+    if case.get('tls'):
+        from vf.props import c11
+        from vf.harness import k as K_
+        try:
+            with K_.unpatched():
+                vs, _ = tls_evaluate(case)
+        finally:
+            tls_stop()
+            c11.cleanup()
+        return [{'property': ID, 'clause': cl, 'features': ft, 'case': case, 'observed': ob, 'expected': ex} for (cl, ft, ob, ex) in vs]
     vs, _ = evaluate(case)
     return [{'property': ID, 'clause': cl, 'features': ft, 'case': case, 'observed': ob, 'expected': ex} for (cl, ft, ob, ex) in vs]
 
@@ -266,12 +282,186 @@ def cases(draw: Any) -> Dict[str, Any]:
     return c
 
 
+# -- authentication together with TLS interception (harness L of C11: live executor thread, TLS origin thread) --------
+
+_TLS: Dict[str, Any] = {}
+
+
+def tls_executor() -> Any:
+    import os
+    from vf.props import c11
+    fx = c11.fixture()
+    ex = _TLS.get('ex')
+    if ex is not None and _TLS.get('pid') == os.getpid() and ex['thread'].is_alive():
+        return ex
+    import logging
+    import threading
+    from proxy.common.flag import FlagParser
+    from proxy.common.backports import NonBlockingQueue
+    from proxy.core.work.fd.local import LocalFdExecutor
+    P = fx['P']
+    argv = ['--threadless', '--ca-key-file', P('ca-key.pem'), '--ca-cert-file', P('ca-cert.pem'), '--ca-signing-key-file', P('ca-signing-key.pem'),
+            '--ca-cert-dir', P('certs'), '--ca-file', P('oca-cert.pem'), '--basic-auth', 'user:pass']
+    flags = FlagParser.initialize(argv)
+    logging.disable(logging.CRITICAL)
+    q = NonBlockingQueue()
+    lex = LocalFdExecutor(iid='c08', work_queue=q, flags=flags, event_queue=None)
+    th = threading.Thread(target=lex.run, daemon=True)
+    th.start()
+    ex = {'q': q, 'thread': th, 'ex': lex}
+    _TLS.update(ex=ex, pid=os.getpid())
+    return ex
+
+
+def tls_stop() -> None:
+    ex = _TLS.pop('ex', None)
+    if ex is not None:
+        try:
+            ex['q'].put(False)
+        except Exception:
+            pass
+
+
+def tls_converse(c: Dict[str, Any]) -> Dict[str, Any]:
+    """CONNECT (with the drawn Proxy-Authorization lines) -> TLS to the proxy's generated certificate -> 1..3 requests inside
+    the tunnel, each with its own drawn Proxy-Authorization lines."""
+    import ssl
+    import time
+    import socket
+    from vf.props import c11
+    fx = c11.fixture()
+    origin = c11.origin_for('good', False)
+    origin.response_size = 10
+    ex = tls_executor()
+    n_before = len(origin.conns)
+    a, b = socket.socketpair()
+    ex['q'].put((a, ('127.0.0.1', 51008)))
+    deadline = time.time() + c11.DEADLINE
+    out: Dict[str, Any] = {'stage': 'connect', 'responses': 0}
+    try:
+        auth = b''.join(ln[0] + b':' + b' ' * ln[2] + ln[1] + b'\r\n' for ln in c['connect_auth'])
+        b.sendall(b'CONNECT good.test:%d HTTP/1.1\r\nHost: good.test:%d\r\n' % (origin.port, origin.port) + auth + b'\r\n')
+        head, st_ = c11.recv_until(b, lambda x: b'\r\n\r\n' in x, deadline)
+        out['connect_reply'] = head[:200]
+        if st_ != 'ok' or not head.startswith(b'HTTP/1.1 200'):
+            # rejected: must be a 407 followed by EOF
+            rest, st2 = c11.recv_until(b, lambda x: False, min(deadline, time.time() + 3.0))
+            out['after_reject'] = st2
+            return out
+        out['stage'] = 'handshake'
+        ctx = ssl.create_default_context(cafile=fx['P']('ca-cert.pem'))
+        b.settimeout(max(0.5, deadline - time.time()))
+        try:
+            t = ctx.wrap_socket(b, server_hostname='good.test')
+        except (ssl.SSLError, OSError) as e:
+            out['handshake'] = 'failed:%s' % type(e).__name__
+            return out
+        out['stage'] = 'requests'
+        for i, lines in enumerate(c['inner_auth']):
+            auth = b''.join(ln[0] + b':' + b' ' * ln[2] + ln[1] + b'\r\n' for ln in lines)
+            t.sendall(b'GET /inner%d HTTP/1.1\r\nHost: good.test:%d\r\nX-Keep: yes\r\n' % (i, origin.port) + auth + b'\r\n')
+            resp, st3 = c11.recv_until(t, lambda x: c11._complete(x), deadline)
+            if st3 != 'ok':
+                out['response_status'] = st3
+                break
+            out['responses'] += 1
+        out['stage'] = 'done'
+        try:
+            t.close()
+        except OSError:
+            pass
+        return out
+    except OSError as e:
+        out['error'] = '%s: %s' % (type(e).__name__, e)
+        return out
+    finally:
+        try:
+            b.close()
+        except OSError:
+            pass
+        time.sleep(0.02)
+        out['origin_conns'] = [dict(x) for x in origin.conns[n_before:]]
+        out['executor_alive'] = ex['thread'].is_alive()
+
+
+def tls_evaluate(c: Dict[str, Any]) -> Tuple[List[Any], Dict[str, Any]]:
+    token = token_of('user:pass')
+    cls = classify([ln[1] for ln in c['connect_auth']], token)
+    r = tls_converse(c)
+    feat = {'class': cls, 'tls_interception': True}
+    info = {'class': cls, 'stage': r['stage'], 'inner_with_auth': sum(1 for x in c['inner_auth'] if x)}
+    out: List[Any] = []
+    if not r['executor_alive']:
+        _TLS.pop('ex', None)
+        return [('worker-died', feat, r.get('error'), None)], info
+    seen = b''.join(x.get('app_bytes', b'') for x in r['origin_conns'])
+    if cls == 'must-reject':
+        if not r.get('connect_reply', b'').startswith(b'HTTP/1.1 407'):
+            out.append(('unauthenticated-not-407', feat, r.get('connect_reply', b'')[:80], b'HTTP/1.1 407'))
+        if r['origin_conns']:
+            out.append(('upstream-connection-for-unauthenticated-request', feat, len(r['origin_conns']), 0))
+        if r.get('after_reject') not in (None, 'eof') and r.get('after_reject', '').startswith('timeout'):
+            out.append(('connection-left-open-after-407', feat, r.get('after_reject'), 'eof'))
+        return out, info
+    if cls == 'dont-care':
+        info['dontcare'] = True
+        return out, info
+    if r['stage'] != 'done' or r['responses'] != len(c['inner_auth']):
+        if r.get('response_status') == 'timeout' or r.get('handshake', '').startswith('failed') or r['stage'] == 'connect':
+            # not served although authenticated
+            out.append(('authenticated-request-not-served', feat, {k_: r.get(k_) for k_ in ('stage', 'connect_reply', 'handshake', 'response_status', 'error')},
+                        'served'))
+        return out, info
+    import re
+    leaked = re.findall(rb'(?im)^proxy-authorization[ \t]*:[^\r\n]*', seen)
+    if leaked:
+        out.append(('credentials-forwarded-to-origin', dict(feat, request='inside-intercepted-tunnel'), leaked[:3], 'no Proxy-Authorization field'))
+    if seen.count(b'X-Keep: yes') != len(c['inner_auth']):
+        out.append(('intercepted-request-not-forwarded', feat, seen[:200], len(c['inner_auth'])))
+    return out, info
+
+
 def shards(tier: str) -> List[Dict[str, Any]]:
     q = tier == 'quick'
-    return [{'name': 'auth-%02d' % i, 'examples': 380 if q else 6500} for i in range(16)]
+    out = [{'name': 'auth-%02d' % i, 'examples': 380 if q else 6500} for i in range(16)]
+    out += [{'name': 'tls-intercepted-%d' % i, 'kind': 'tls', 'examples': 40 if q else 700} for i in range(4)]
+    return out
+
+
+@st.composite
+def tls_cases(draw: Any) -> Dict[str, Any]:
+    def lines(k: int, right_bias: bool) -> List[List[Any]]:
+        res = []
+        for _ in range(k):
+            v, kind = draw(auth_value('user:pass'))
+            if right_bias and draw(st.integers(0, 3)) != 0:
+                v = b'Basic ' + token_of('user:pass')
+            res.append([G._recase(draw, 'Proxy-Authorization').encode(), v, draw(st.integers(0, 2))])
+        return res
+    return {'tls': True, 'connect_auth': lines(draw(st.sampled_from([0, 1, 1, 1, 1])), True),
+            'inner_auth': [lines(draw(st.sampled_from([0, 1, 1])), False) for _ in range(draw(st.integers(1, 3)))]}
 
 
 def run_shard(spec: Dict[str, Any], seed: int, acc: Any) -> None:
+    if spec.get('kind') == 'tls':
+        from vf.props import c11
+        from vf.harness import k as K_
+
+        def chk_tls(c: Dict[str, Any]) -> List[Any]:
+            vs, info = tls_evaluate(c)
+            if info.get('dontcare'):
+                acc.dontcare += 1
+            acc.case(c, info['class'] == 'must-accept' and info['inner_with_auth'] >= 1 or info['class'] == 'must-reject',
+                     labels=['tls-intercepted', 'class:' + info['class'], 'inner-requests-with-credentials:%d' % info['inner_with_auth']])
+            return vs
+        try:
+            with K_.unpatched():
+                hyp.drive(tls_cases(), chk_tls, acc, max_examples=spec['examples'], seed=seed, shrink=False)
+        finally:
+            tls_stop()
+            c11.cleanup()
+        return
+
     def chk(c: Dict[str, Any]) -> List[Any]:
         vs, info = evaluate(c)
         labs = ['class:' + info['class'], 'method:' + ('CONNECT' if c['method'] == b'CONNECT' else 'other'),
